@@ -426,6 +426,28 @@ func main() {
 							}
 							seen[x.T] = true
 						}
+						// ... and the NEXT sorts (same and other functions, fresh input) are correct and stable
+						if k%3 == 1 {
+							for _, g := range []func([]E, func(a, b E) bool){func(s []E, l func(a, b E) bool) { slices.SortStableFunc(s, l) }, func(s []E, l func(a, b E) bool) { slices.SortFunc(s, l) }} {
+								t := make([]E, 41)
+								for i := range t {
+									t[i] = E{(i * 11) % 7, i}
+								}
+								g(t, func(a, b E) bool { return a.K < b.K })
+								ints := make([]int, 41)
+								for i := range ints {
+									ints[i] = (i * 11) % 7
+								}
+								slices.Sort(ints)
+								e.Call()
+								for i := 1; i < len(t); i++ {
+									if t[i-1].K > t[i].K || ints[i-1] > ints[i] {
+										e.Fail("Sort|after-panic", map[string]any{"fn": f.name, "len": n, "less_panics_at_call": k}, "after %s's less function panicked at call %d (recovered), the next sort of 41 fresh elements gives %v / %v", f.name, k, t, ints)
+										break
+									}
+								}
+							}
+						}
 					}
 				}
 			}
